@@ -108,7 +108,8 @@ OnRecon(ev) ==
        cls == ExpectRecon(st, ev.x, ev.nullmask, ev.flc, ev.U, ev.nfrag, ev.nfrag, SameCfg(ev), tol, Fired(ev))
        excused == ev.rc < 0 /\ ExcusedBy(ev.be, ev.k, ev.m, MissingIn(ev))
    IN [v |-> (IF excused THEN {} ELSE ClsU(ev, cls, ev.rc, "C13/C03 reconstruct: argument class or tolerated erasure set judged wrongly"))
-             \cup (IF ev.rc = 0 /\ SameCfg(ev) /\ ev.same # 1 THEN {"C02 reconstruct success with wrong bytes"} ELSE {})
+             \cup (IF ev.rc = 0 /\ SameCfg(ev) /\ (IF Has(ev, "samep") /\ ev.ict # ev.ct THEN ev.samep # 1 ELSE ev.same # 1)
+                   THEN {"C02 reconstruct success with wrong bytes"} ELSE {})
              \cup Common(ev, "C13") \cup NoDelta(ev),
        s |-> st, e |-> encD, d |-> decD]
 \* C06 on histories: for a live instance and well-formed index lists the answer is a usable, sufficient list, and within
